@@ -33,6 +33,8 @@ fn spaces(tier: Tier) -> Vec<Space> {
             Space { alpha: "TERN", depth: 3 },
             Space { alpha: "CASE", depth: 2 },
             Space { alpha: "CASE", depth: 3 },
+            Space { alpha: "QSYM", depth: 3 },
+            Space { alpha: "Q", depth: 2 },
             Space { alpha: "MICRO", depth: 3 },
             Space { alpha: "BIND", depth: 2 },
             Space { alpha: "CORE", depth: 3 },
@@ -59,6 +61,9 @@ fn spaces(tier: Tier) -> Vec<Space> {
             Space { alpha: "TERN", depth: 3 },
             Space { alpha: "CASE", depth: 2 },
             Space { alpha: "CASE", depth: 3 },
+            Space { alpha: "QSYM", depth: 3 },
+            Space { alpha: "QSYM", depth: 4 },
+            Space { alpha: "Q", depth: 2 },
             Space { alpha: "CORE", depth: 3 },
             Space { alpha: "A0", depth: 3 },
             Space { alpha: "MICRO", depth: 4 },
